@@ -662,7 +662,7 @@ func labelQuery(v *vcase.Verdict, kind string, terms []Term, cl qclass, matched,
 var (
 	fileKeys   = []string{"goos", "pkg", "commit", "note", "k9", "é"}
 	serverKeys = []string{"upload", "upload-part", "upload-time", "upload-file", "by"}
-	fileVals   = []string{"linux", "darwin", "a", "b", "ab", "abc", "a b", "10", "9", "2", `q"t`, `b\s`, "tab\tx", "héllo", "日本", "v ", "x:y", "a<b", "z>", "A"}
+	fileVals   = []string{"50%", "%s%d", "linux", "darwin", "a", "b", "ab", "abc", "a b", "10", "9", "2", `q"t`, `b\s`, "tab\tx", "héllo", "日本", "v ", "x:y", "a<b", "z>", "A"}
 	users      = []string{"alice", "alice", "bob@example.com", "carol x", ""}
 	fileNames  = []string{"a.txt", "b.txt", "bench.out", "dir/c.txt", "x y.txt", "", "a.txt"}
 	nameBases  = []string{"Foo", "Bar", "Encode", "Xz", "X", "Foo"}
@@ -670,7 +670,9 @@ var (
 	subVals    = []string{"1", "16", "128", "", "a-b", "x.y", "é", "10", "9"}
 	bareVals   = []string{"small", "big", "1", "", "v-2"}
 	procs      = []string{"1", "4", "8", "16"}
-	rests      = []string{" 1 ns/op", "\t     100\t  12.5 ns/op", " 1 2 ns/op 3 B/op", "   2000000000\t0.33 ns/op\t  0 allocs/op", " 1 1 ns/op ", " 5 ns/op é", "\t7"}
+	rests      = []string{" 1 ns/op", "\t     100\t  12.5 ns/op", " 1 2 ns/op 3 B/op", "   2000000000\t0.33 ns/op\t  0 allocs/op", " 1 1 ns/op ", " 5 ns/op é", "\t7",
+		// per cent signs (nothing in a stored line is a format directive), lines without any blank
+		" 1 50 %hit", " 10 99.5 %", " 3 7 %d/op 2 100%", "\t5\t1 ns/op\t%s", " 1 2 %%", "\t100\t12.5\tns/op", "\t1\t2\tns/op\t3\tB/op"}
 	junk       = []string{"PASS", "ok  \tgolang.org/x/perf\t0.1s", "--- BENCH: BenchmarkFoo", "BenchmarkNoSpace", "# comment", "note:nospace", "Upper: x", "   indented: x", "FAIL", ": x", ":", ": ", "=: x", "Benchmark", "key value: x"}
 	seps       = []string{" ", " ", "\t", "  ", " \t"}
 )
